@@ -18,7 +18,7 @@ calls across crates."""
 import copy
 import re
 
-MAX_BLOCKS = 80
+MAX_BLOCKS = 300
 MAX_ROUNDS = 4
 
 
@@ -476,34 +476,63 @@ def thread_known_discriminants(doc, dry=False):
                             heads.append((ps[0], ti, r0, True, variants))
                     continue
             heads.append((ti, ti, r, False, variants))
+        def state_after(bl, local, depth=0):
+            """what the block leaves in `local`: ("variant", adt, v) | ("alias", other local) | ("same",) when it does not write it |
+            None when it writes something that cannot be followed"""
+            for idx in range(len(bl["stmts"]) - 1, -1, -1):
+                st = bl["stmts"][idx]
+                if st.get("k") != "assign" or st["p"]["l"] != local:
+                    continue
+                if st["p"].get("p"):
+                    return None
+                rv = st["rv"]
+                if rv["k"] == "aggregate" and rv.get("adt") in _KNOWN_ADTS and rv.get("variant"):
+                    return ("variant", rv["adt"], rv["variant"])
+                if rv["k"] == "use" and rv["op"].get("k") in ("move", "copy") and not rv["op"]["p"].get("p") and depth < 3:
+                    src = rv["op"]["p"]["l"]
+                    inner = state_after({"stmts": bl["stmts"][:idx]}, src, depth + 1)
+                    if inner == ("same",):
+                        return ("alias", src)
+                    return inner
+                return None
+            return ("same",)
+
+        def origins(x, local, chain, depth, out):
+            """constructing predecessors of block x (reached through forwarding blocks) with the variant they build into `local`"""
+            for q in preds.get(x, []):
+                if q in chain or q == x or len(out) > 24:
+                    continue
+                Q = blocks[q]
+                qt = Q["term"]
+                if qt["k"] == "call" and qt.get("t") == x and not qt["dest"].get("p") and qt["dest"]["l"] == local:
+                    # `?` inside a spliced helper: from_residual builds the failure variant of the helper's return type
+                    fr_ = (qt.get("func") or {}).get("fn") or {}
+                    if str(fr_.get("def", "")).endswith("FromResidual::from_residual"):
+                        tyr = doc["types"][body["locals"][local]["ty"]]
+                        fail = {"std::result::Result": "Err", "std::option::Option": "None", "std::ops::ControlFlow": "Break"}.get(tyr.get("path"))
+                        if tyr.get("k") == "adt" and fail:
+                            out.append((q, list(chain), tyr["path"], fail))
+                    continue
+                if qt["k"] not in ("goto", "drop") or qt.get("t") != x or (qt["k"] == "drop" and qt.get("p", {}).get("l") == local):
+                    continue
+                stt = state_after(Q, local)
+                if stt is None:
+                    continue
+                if stt[0] == "variant":
+                    out.append((q, list(chain), stt[1], stt[2]))
+                elif depth < 12 and q < n0:
+                    nxt = stt[1] if stt[0] == "alias" else local
+                    # a forwarding block: it only hands the value on (possibly under another name); it is cloned with the test
+                    if any(st.get("k") == "assign" and st["rv"]["k"] == "ref" and st["rv"]["p"]["l"] in (local, nxt) for st in Q["stmts"]):
+                        continue
+                    origins(q, nxt, chain + [q], depth + 1, out)
+
         for (ei, ti, r, via_try, variants) in heads:
-            for pi in list(preds.get(ei, [])):
-                if pi == ei or pi == ti or made >= MAX_THREADS_PER_BODY:
+            found = []
+            origins(ei, r, [], 0, found)
+            for (qi, chain, adt, variant) in found:
+                if qi == ei or qi == ti or made >= MAX_THREADS_PER_BODY:
                     continue
-                P = blocks[pi]
-                pt = P["term"]
-                if pt["k"] not in ("goto", "drop") or pt.get("t") != ei:
-                    continue
-                if pt["k"] == "drop" and pt.get("p", {}).get("l") == r:
-                    continue
-                chain = [pi]
-                v = _built_variant(P, r)
-                # one or two forwarding blocks between the construction and the test
-                hops = 0
-                while v is None and hops < 2:
-                    pp = preds.get(chain[-1], [])
-                    if len(pp) != 1:
-                        break
-                    Q = blocks[pp[0]]
-                    qt = Q["term"]
-                    if qt["k"] not in ("goto", "drop") or qt.get("t") != chain[-1] or (qt["k"] == "drop" and qt.get("p", {}).get("l") == r):
-                        break
-                    chain.append(pp[0])
-                    v = _built_variant(Q, r)
-                    hops += 1
-                if not v:
-                    continue
-                adt, variant = v
                 if via_try:
                     variant = _TRY_MAP.get((adt, variant))
                 if variant not in variants:
@@ -511,27 +540,28 @@ def thread_known_discriminants(doc, dry=False):
                 T = blocks[ti]
                 idx = variants[variant]
                 target = dict((a, b) for a, b in T["term"]["targets"]).get(str(idx), T["term"]["otherwise"])
-                done.append((f["id"], chain[-1], ei, variant))
+                done.append((f["id"], qi, ei, variant))
                 if dry:
                     continue
-                # copies: forwarding blocks strictly between the constructing block and E (chain[:-1] reversed), E, T
+                # copies: E (and T), then the forwarding blocks between the constructing block and E, nearest to E first
                 nb = len(blocks)
                 Tn = copy.deepcopy(T)
                 Tn["term"] = {"k": "goto", "t": target, "threaded": variant, "sp": T["term"].get("sp")}
                 if ei != ti:
                     En = copy.deepcopy(blocks[ei])
                     En["term"]["t"] = nb + 1
+                    En["term"].setdefault("orig_bb", ei)
                     blocks.append(En)         # nb
                     blocks.append(Tn)         # nb + 1
                 else:
                     blocks.append(Tn)         # nb
                 entry = nb
-                for ci in chain[:-1]:         # nearest to E first
+                for ci in chain:              # chain[0] is the forwarding block next to E
                     Cn = copy.deepcopy(blocks[ci])
                     Cn["term"]["t"] = entry
                     blocks.append(Cn)
                     entry = len(blocks) - 1
-                blocks[chain[-1]]["term"]["t"] = entry
+                blocks[qi]["term"]["t"] = entry
                 made += 1
     return done
 
